@@ -270,7 +270,9 @@ def prog_C10(ctx):
 
 
 def prog_C15(ctx):
-    generic(ctx, ['Dc4bcVerif.Props.C15', 'Dc4bcVerif.Props.SrcFacts'], 'nodediff', 'node', ['C15'], NODE_TRUSTED, NODE_RULE, cov_from_stats=node_cov)
+    generic(ctx, ['Dc4bcVerif.Props.C15', 'Dc4bcVerif.Props.C15Conc', 'Dc4bcVerif.Props.SrcFacts'], 'nodediff', 'node', ['C15'], NODE_TRUSTED +
+            ['translator: executeOperation\'s calls on answerMu and its lookup / post / retire calls in textual order (Gen/RoundLock.lean answerSteps), regenerated on every run; Props/C15Conc.lean answer_is_one_locked_step is kernel-evaluated over it; nodediff submits one result file twice at the same time (the first submission held at the board until the second is there too, or 300 ms) and results carrying 16 / 17 / 33 messages'],
+            NODE_RULE, cov_from_stats=node_cov)
 
 
 def prog_C08(ctx):
